@@ -294,7 +294,7 @@ def run(ctx):
     native.build()
     known, _ = load_known("C03")
     N = int(os.environ.get("VERIF_C03_N", "4" if ctx.quick else "5"))
-    count = int(os.environ.get("VERIF_C03_PROGS", "400" if ctx.quick else "3000"))
+    count = int(os.environ.get("VERIF_C03_PROGS", "500" if ctx.quick else "3000"))
     trees = gen_trees(ctx.seed, count, 3 if ctx.quick else 4)
     t0 = time.time()
     res = par.pmap(explore_program, [(P, t, N, [(False, 0)], True) for t in trees], NCPU)
